@@ -18,6 +18,12 @@ IMPORTS = ("From Coq Require Import List ZArith Floats.\nFrom SpdVerif Require I
 TWO_PI = 2 * math.pi
 
 
+def unknown_failing_input(ctx):
+    """a violation with a concrete failing input that is NOT a listed known finding (known findings must not switch the search off)"""
+    fs = load_findings()
+    return any(v["found_input"] and not match_finding(v, fs, ctx.prop) for v in ctx.violations)
+
+
 def fl(h):
     return f64_of_hex(h)
 
@@ -177,14 +183,28 @@ def oracle_poling(ctx, obs, cases):
         if r["class"] == "panic":
             ctx.violation("S5", f"optimum_poling_period panicked: {r['message'][:120]}", {"kind": "panic", "route": "optimum_poling_period"}, rep)
             continue
-        for route in ("try_new_optimum", "assign_optimum_periodic_poling"):
-            r2 = o[route]
+        routes = dict(o.get("routes", {}))
+        routes["try_new_optimum"] = o["try_new_optimum"]
+        for route, r2 in sorted(routes.items()):
+            if route.endswith(".keeps_apodization"):
+                if r2 is False:
+                    ctx.violation("S5", f"{route[:-18]} does not keep the apodization of the poling it replaces", {"kind": "poling_routes", "route": route}, rep)
+                continue
+            ctx.count("route:" + route)
             if r2["class"] != r["class"] or r2.get("value") != r.get("value"):
-                ctx.violation("S5", f"{route} and optimum_poling_period disagree on the same setup ({r2} vs {r})", {"kind": "poling_routes", "route": route}, rep)
+                ctx.violation("S5", f"{route} and optimum_poling_period disagree on the same setup: {route} gives "
+                              f"{fl(r2['value']) if r2.get('value') else r2}, optimum_poling_period gives {fl(r['value']) if r.get('value') else r} "
+                              f"({i['crystal']} {i['pm_type']})", {"kind": "poling_routes", "route": route}, rep)
         if o["compute_sign_positive"] is not True and o["compute_sign_positive"] is not False:
             ctx.violation("S5", "PeriodicPoling::compute_sign panicked", {"kind": "panic", "route": "compute_sign"}, rep)
         elif o["compute_sign_positive"] != (not (z0 < 0)):
             ctx.violation("S5", f"compute_sign is not the sign of the unpoled dkz ({z0!r})", {"kind": "poling_sign", "route": "compute_sign"}, rep)
+        gl0 = fl(o["g_at_length"]) if o.get("g_at_length") else None
+        if gl0 is not None:
+            # no admissible period phase-matches, even within the tolerance: |dkz(On{period})| L/2 >= 1e-3 for every period <= L
+            hopeless = gl0 * L / 2 <= -1e-3
+            ctx.count(("poling[non-collinear]" if ths != 0 else "poling[collinear]") + ": "
+                      + ("no period <= L phase-matches" if hopeless else "some period <= L phase-matches") + " -> " + r["class"])
         rx = o["replica"]["result"]
         if o["replica"]["table"]:
             ctx.count("poling: evaluated costs V-shaped (hypothesis of the convergence theorem): " + ("yes" if table_is_v_shaped(o["replica"]["table"]) else "no"))
@@ -210,14 +230,18 @@ def oracle_poling(ctx, obs, cases):
                 ctx.violation("S5", "mismatch at the returned period is not finite", {"kind": "poling_residual_nan"}, rep)
             else:
                 val = abs(fl(res["dkz"])) * L / 2
-                above = seed > L
+                # the true root (optimum idler recomputed per period) lies beyond L exactly when sign(dkz0) * dkz(On{L}) < 0
+                gl = fl(o["g_at_length"]) if o.get("g_at_length") else None
+                above = (gl < 0) if gl is not None else (seed > L)
                 zi = bool(o.get("zero_index_during_search"))
                 if not val < 1e-3:
                     ctx.violation("S5", f"optimum_poling_period returned {p!r} m but |dkz| L/2 = {val:.3e} >= 1e-3 "
                                   f"({i['crystal']} {i['pm_type']}, L = {L*1e3:.4f} mm, exact collinear period 2 pi/|dkz0| = {seed*1e3:.6f} mm"
                                   + (", which exceeds L: no period <= L phase-matches, an error was due" if above else "")
                                   + ("; index_along returned 0 for the idler at some evaluated periods (imaginary index next to an optic axis: property C02)" if zi else "") + ")",
-                                  {"kind": "poling_residual", "root_above_length": above, "zero_index_during_search": zi}, dict(rep, residual=val))
+                                  {"kind": "poling_residual", "root_above_length": above, "zero_index_during_search": zi,
+                                   "collinear": ths == 0, "seed_minus_L_um_le_1": bool(0 < seed - L <= 1.0e-6 * (1 + 1e-6)),
+                                   "residual_lt_1e-2": bool(val < 1e-2), "route": "optimum_poling_period"}, dict(rep, residual=val))
                 # contract of C04_residual_partial: the simplex's final cost < 2e-3 / L
                 if rx["ok"] and o["replica"]["table"]:
                     costs = {x: c for x, c in o["replica"]["table"]}
@@ -276,7 +300,8 @@ def oracle_theta(ctx, obs, cases):
                     ctx.violation("S5", f"auto crystal angle = {math.degrees(th):.6g} deg leaves |dkz| L/2 = {val:.4g} although "
                                   f"{math.degrees(good_roots[0]):.4f} deg phase-matches ({i['crystal']} {i['pm_type']}, "
                                   f"{fl(i['pump_wavelength'])*1e9:.1f} -> {fl(i['signal_wavelength'])*1e9:.1f} nm, crystal azimuth {math.degrees(fl(i['crystal_phi'])):.2f} deg)",
-                                  {"kind": "theta_residual", "crystal": i["crystal"], "pm_type": i["pm_type"]},
+                                  {"kind": "theta_residual", "crystal": i["crystal"], "pm_type": i["pm_type"],
+                                   "returned_near_zero": bool(th < 1e-3), "route": "optimum_theta"},
                                   dict(rep, residual=val, returned_theta_deg=math.degrees(th)))
                 if fl(i["signal_theta"]) != 0 and o["residual_object"] and is_finite_hex(o["residual_object"]):
                     v2 = abs(fl(o["residual_object"])) * L / 2
@@ -301,7 +326,8 @@ def oracle_theta(ctx, obs, cases):
                 val = abs(fl(r["dkz"])) * L / 2
                 if not val < 1e-3:
                     ctx.violation("S5", f"config \"auto\" crystal angle {math.degrees(th):.6g} deg leaves |dkz| L/2 = {val:.4g} ({i['crystal']} {i['pm_type']})",
-                                  {"kind": "theta_residual", "crystal": i["crystal"], "pm_type": i["pm_type"]}, describe(o))
+                                  {"kind": "theta_residual", "crystal": i["crystal"], "pm_type": i["pm_type"],
+                                   "returned_near_zero": bool(th < 1e-3), "route": "config"}, describe(o))
 
 
 # ------------------------------------------------------------------------------------------------ S4 correspondence
@@ -385,6 +411,7 @@ def run(ctx):
     nm_obs = run_harness(ctx, binp, ["c04", "nm", ctx.seed, 280 if quick else 2800])
     pol_obs = run_harness(ctx, binp, ["c04", "poling", ctx.seed, 110 if quick else 660])
     edge_obs = run_harness(ctx, binp, ["c04", "edge", ctx.seed, 2 if quick else 11])
+    edge_obs += run_harness(ctx, binp, ["c04", "near", ctx.seed, 22 if quick else 220])
     th_obs = run_harness(ctx, binp, ["c04", "theta", ctx.seed, 34 if quick else 200], timeout=1200)
     pol_cases, th_cases = [], []
     oracle_poling(ctx, pol_obs + edge_obs, pol_cases)
@@ -398,19 +425,20 @@ def run(ctx):
         correspondence(ctx, nm_obs, real)
     else:
         ctx.note("correspondence cases skipped: the model did not compile")
-    if (not proved or ctx.case_failures) and not any(v["found_input"] for v in ctx.violations):
+    if (not proved or ctx.case_failures) and not unknown_failing_input(ctx):
         ctx.log("S5 deep search for a failing input (proof obligations / correspondence are broken)")
         for k in range(2):
             o1 = run_harness(ctx, binp, ["c04", "poling", ctx.seed + 1000 + k, 1500])
             o2 = run_harness(ctx, binp, ["c04", "theta", ctx.seed + 1000 + k, 150], timeout=1200)
             oracle_poling(ctx, o1, [])
             oracle_theta(ctx, o2, [])
-            if any(v["found_input"] for v in ctx.violations):
+            if unknown_failing_input(ctx):
                 break
     ctx.cov["rule"] = ("nm: cost functions |x-a|, (x-a)^2, asymmetric V, two-well, constant, step, max(|x-a|, 2|x-b|) with dyadic data, seeds/bounds on a 1/16 grid "
                        "(bounds sometimes excluding a seed), max_iter 0..40, tolerance in {0, 2^-10, 2^-20, 1e-6}. poling: case i has crystal i mod 11, type (i div 11) mod 5, "
                        "random orientation / temperature 0-100 C / length 1-30 mm / wavelengths in-window, signal polar angle 0-0.05 rad (15% collinear); "
-                       "edge: collinear setups whose exact period 2 pi/|dkz0| is 0.05..1.5 um above / 0.5 um below a 1-3 mm crystal length. "
+                       "edge: collinear setups whose exact period 2 pi/|dkz0| is 0.05 um .. 100 um above / 0.5 um below a 1-3 mm crystal length; "
+                       "near: crystal angle tuned by bisection to an unpoled mismatch of +-(1e-3 .. 1e3) rad/m (one third collinear). "
                        "theta: the design-note configuration (BiBO_1 e->eo 775->1550 nm azimuth 0) then crystal i mod 11 x {e->oo, e->eo, e->oe} x random azimuth, "
                        "25% slightly non-collinear; every case comes with a 0.25 deg scan of the signed mismatch over [0, 90] deg and bisection of its sign changes. "
                        "distinct = distinct input bit patterns")
@@ -418,7 +446,9 @@ def run(ctx):
         "best cost never increases / result is an evaluated point / stays in bounds": "proved (generic model) + model validated bit-exactly against nelder_mead_1d",
         "sign of the period = sign of unpoled dkz, |period| <= L": "proved",
         "collinear: period = 2 pi/|dkz unpoled| and nulls the mismatch": "proved (real-number model, any simplex operations) + measured 1e-9",
-        "error rather than a period when no period <= L phase-matches": "proved_partial (seed more than 1 um above L => Err; result above L => Err); REFUTED in the window L < 2 pi/|dkz0| <= L + 1 um (F4b)",
+        "error rather than a period when no period <= L phase-matches": "proved_partial (collinear, exact operations: seed more than 1 um above L => Err; any signal: simplex result above L => Err); "
+                       "REFUTED in the window L < 2 pi/|dkz0| <= L + 1 um (F4b). Non-collinear signals: no theorem beyond the wrapper rule; the oracle decides "
+                       "per input from the sign of dkz at period L (true root beyond L) and an Ok there is a residual violation",
         "|dkz| L/2 < 1e-3 at the returned period": "proved_partial: conditional on the simplex contract cost < 2e-3/L (checked per input); the contract itself is proved "
                                                      "for exact arithmetic when dkz(period) is strictly monotone on the bounds (C04_nm_run_converges: error <= 2 * 2^J * 1e-6 / 2^m "
                                                      "after J + 1 + 2 m iterations unless the sd test stops earlier; the V shape of the evaluated costs is checked per input)",
